@@ -6,7 +6,9 @@ Data are stored once and deep-copied on every use (the client owns its arguments
 # ruff: noqa: UP006, UP007, UP035
 import collections
 import copy
+import datetime as _dtm
 import enum
+import uuid as _uuid
 import io
 import typing
 from dataclasses import dataclass, field
@@ -47,6 +49,8 @@ from adaptix import (
     P,
     Retort,
     as_is_loader,
+    datetime_by_format,
+    datetime_by_timestamp,
     dumper,
     enum_by_name,
     flag_by_member_names,
@@ -194,6 +198,19 @@ class Holder:
 class NT(NamedTuple):
     a: int
     tags: List[int] = []  # noqa: RUF012
+
+
+@dataclass
+class DefM1:
+    """Defaults whose hashes collide with DefM2's (hash(-1) == hash(-2)) while the values differ."""
+    x: int = -1
+    t: Tuple[int, ...] = (-1, 5)
+
+
+@dataclass
+class DefM2:
+    x: int = -2
+    t: Tuple[int, ...] = (-2, 5)
 
 
 class DeepDefaults(NamedTuple):
@@ -636,6 +653,12 @@ if PM is not None:
 # types whose failed loads carry a structured payload (allowed values, variants) the client can get hold of
 _t("model", DeepDefaults=DeepDefaults, ListDeepDefaults=List[DeepDefaults])
 _t("model", WithExtra5=WithExtra5)
+# values that are unequal but hash alike (hash(-1) == hash(-2) in CPython): keys built from them collide in hash only
+_t("literal", LitM1=Literal[-1], LitM2=Literal[-2], LitM1x=Literal[-1, 5], LitM2x=Literal[-2, 5], OptLitM1=Optional[Literal[-1]],
+   OptLitM2=Optional[Literal[-2]], ListLitM1=List[Literal[-1]], ListLitM2=List[Literal[-2]])
+_t("model", DefM1=DefM1, DefM2=DefM2)
+_t("time", DateTime=_dtm.datetime, Date=_dtm.date, Time=_dtm.time, TimeDelta=_dtm.timedelta, UUID=_uuid.UUID,
+   ListDateTime=List[_dtm.datetime], OptDate=Optional[_dtm.date], DictStrDateTime=Dict[str, _dtm.datetime])
 _t("payload", LitBig=LitBigT, Pixel=Pixel, ListPixel=List[Pixel], ListShade=List[Shade], DictStrLitBig=Dict[str, LitBigT],
    OptLitBig=Optional[LitBigT], ListPerm=List[Perm])
 
@@ -659,6 +682,8 @@ CONFUSABLE_GROUPS = [
     ["TupUnpack", "TupHolder", "ListTupUnpack"], ["LinkedInt", "LinkedStr", "LinkedBool"], ["TupIntStr", "TupBoolStr"],
     ["RA", "RB"], ["Node", "ListNode", "OptNode", "DictStrNode", "Holder"], ["int", "bool", "float", "Color", "Status"], ["Color", "Status"],
     ["LitBig", "OptLitBig", "Pixel", "ListPixel", "DictStrLitBig"], ["Shade", "ListShade", "LitShade"], ["Perm", "ListPerm"],
+    ["DateTime", "Date", "OptDate", "ListDateTime", "DictStrDateTime"],
+    ["LitM1", "LitM2"], ["LitM1x", "LitM2x"], ["OptLitM1", "OptLitM2"], ["ListLitM1", "ListLitM2"], ["DefM1", "DefM2"],
     ["Unsupported", "ListUnsupported", "CallableT"], ["FlagGap", "UserFG", "GroupFG", "ListFlagGap"], ["bytes", "bytearray", "BytesIO", "IOBytes"],
 ]
 PARTNERS: Dict[str, List[str]] = {}
@@ -732,6 +757,10 @@ DATA: Dict[str, Any] = {
     "deep_full": {"a": 2, "cfg": {"z": [{"y": 3}]}, "long": {"q": [1]}}, "l_deep": [{}, {"a": 1}, {"cfg": {}}],
     "withextra5": {"a": 1, "meta": {"k": [1]}, "labels": {"env": {"name": "prod"}}, "zzz": [7], "yyy": {"k": [1]}},
     "withextra5_plain": {"a": 1, "extra": {"meta": {"s": [1]}}},
+    "im1": -1, "im2": -2, "lm1": [-1, -1], "lm2": [-2], "def_m": {"x": 7},
+    "dt_iso": "2020-01-02T03:04:05", "dt_fmt": "2020-01-02 03:04:05", "dt_ts": 1577934245, "date_iso": "2020-01-02", "time_iso": "03:04:05",
+    "td": 12.5, "uuid": "12345678-1234-5678-1234-567812345678", "ldt": ["2020-01-02T03:04:05", "2021-01-02T03:04:05"],
+    "ldt_fmt": ["2020-01-02 03:04:05", "2021-01-02 03:04:05"], "ddt": {"k": "2020-01-02T03:04:05"},
     "sRed": "red", "sGrey": "grey", "sPink": "pink", "pixel": {"color": "grey", "shade": "dark", "tint": 1, "perm": 3},
     "pixel_min": {"color": "red"}, "pixel_bad": {"color": "pink", "shade": "nope", "tint": 77, "perm": 64},
     "pixel_bad2": {"color": "black", "shade": "dark", "tint": "x"},
@@ -789,10 +818,47 @@ BATTERY: Dict[str, List[str]] = {
     "PM": ["pm"],
     "DeepDefaults": ["empty_d", "m_a", "deep_full"], "ListDeepDefaults": ["l_deep"],
     "WithExtra5": ["withextra5", "withextra5_plain", "withextra"],
+    "LitM1": ["im1", "im2"], "LitM2": ["im2", "im1"], "LitM1x": ["im1", "im2"], "LitM2x": ["im2", "im1"], "OptLitM1": ["im1", "im2", "none"],
+    "OptLitM2": ["im2", "im1", "none"], "ListLitM1": ["lm1", "lm2"], "ListLitM2": ["lm2", "lm1"], "DefM1": ["empty_d", "def_m"], "DefM2": ["empty_d", "def_m"],
+    "DateTime": ["dt_iso", "dt_fmt", "dt_ts", "date_iso"], "Date": ["date_iso", "dt_iso"], "Time": ["time_iso"], "TimeDelta": ["td", "i1"],
+    "UUID": ["uuid", "sA"], "ListDateTime": ["ldt", "ldt_fmt"], "OptDate": ["date_iso", "none"], "DictStrDateTime": ["ddt"],
     "LitBig": ["sRed", "sGrey", "sPink"], "OptLitBig": ["sGrey", "none", "sPink"], "Pixel": ["pixel", "pixel_min", "pixel_bad", "pixel_bad2"],
     "ListPixel": ["lpixel", "lpixel_bad"], "ListShade": ["lshade", "lshade_bad"], "DictStrLitBig": ["d_lit", "d_lit_bad"],
     "ListPerm": ["lperm", "lperm_bad"],
 }
+
+
+def bulk_type(i):
+    """The i-th of an unbounded family of distinct, cheap, valid types (scale: a retort that has served hundreds or
+    thousands of types). Every member adds at least one entry to the per-retort caches and to the normalisation cache."""
+    k = i % 4
+    if k == 0:
+        return Literal[100000 + i]
+    if k == 1:
+        return Tuple[Literal[100000 + i], str]
+    if k == 2:
+        return Dict[str, Literal[f"bulk-{i}"]]
+    return Optional[Literal[100000 + i, "x"]]
+
+
+_DT0 = _dtm.datetime(2001, 2, 3, 4, 5, 6)
+# generators of unboundedly many distinct valid data for one loader: name -> (i -> (datum, expected result))
+BULK_DATA = {
+    "dt_iso": lambda i: ((_DT0 + _dtm.timedelta(hours=i)).isoformat(), _DT0 + _dtm.timedelta(hours=i)),
+    "dt_fmt": lambda i: ((_DT0 + _dtm.timedelta(hours=i)).strftime("%Y-%m-%d %H:%M:%S"), _DT0 + _dtm.timedelta(hours=i)),
+    "date_iso": lambda i: ((_DT0.date() + _dtm.timedelta(days=i)).isoformat(), _DT0.date() + _dtm.timedelta(days=i)),
+    "dec": lambda i: (f"{i}.25", Decimal(f"{i}.25")),
+    "int": lambda i: (i + 2, i + 2),
+    "str": lambda i: (f"s-{i}", f"s-{i}"),
+    "uuid": lambda i: (str(_uuid.UUID(int=i + 1)), _uuid.UUID(int=i + 1)),
+    "l_int": lambda i: ([i, i + 1], [i, i + 1]),
+    "d_int": lambda i: ({f"k{i}": i}, {f"k{i}": i}),
+}
+# (type, generator, recipe) triples for data-bulk scenarios
+BULK_CALLS = [("DateTime", "dt_iso", "plain"), ("DateTime", "dt_fmt", "dt_format"), ("Date", "date_iso", "plain"),
+              ("Decimal", "dec", "plain"), ("int", "int", "plain"), ("str", "str", "plain"), ("UUID", "uuid", "plain"),
+              ("ListInt", "l_int", "plain"), ("DictStrInt", "d_int", "plain"), ("ListDateTime", None, "dt_format")]
+BULK_CALLS = [b for b in BULK_CALLS if b[1] is not None]
 
 
 def battery(tname):
@@ -899,6 +965,11 @@ OBJECTS: Dict[str, Any] = {
     "o_withextra5": lambda: WithExtra5(1, {"k": 1}, {"env": {"name": "prod"}},
                                        {"meta": {"source": "api"}, "labels": {"env": {"region": "eu"}}, "other": [5]}),
     "o_withextra5_nc": lambda: WithExtra5(2, [1], {"env": [1]}, {"zzz": [7]}),
+    "o_im1": lambda: -1, "o_im2": lambda: -2, "o_lm1": lambda: [-1], "o_lm2": lambda: [-2, -2], "o_defm1": lambda: DefM1(),
+    "o_defm2": lambda: DefM2(), "o_defm1x": lambda: DefM1(-2, (-2, 5)), "o_defm2x": lambda: DefM2(-1, (-1, 5)),
+    "o_dt": lambda: _dtm.datetime(2020, 1, 2, 3, 4, 5), "o_date": lambda: _dtm.date(2020, 1, 2), "o_time": lambda: _dtm.time(3, 4, 5),
+    "o_td": lambda: _dtm.timedelta(seconds=12, milliseconds=500), "o_uuid": lambda: _uuid.UUID(int=7),
+    "o_ldt": lambda: [_dtm.datetime(2020, 1, 2, 3, 4, 5), _dtm.datetime(2021, 1, 2)], "o_ddt": lambda: {"k": _dtm.datetime(2020, 1, 2)},
     "o_grey": lambda: "grey", "o_pixel": lambda: Pixel("grey", Shade.DARK, Color.G, Perm.RD | Perm.WR),
     "o_lpixel": lambda: [Pixel("red"), Pixel("white")], "o_lshade": lambda: [Shade.DARK], "o_d_lit": lambda: {"k": "blue"},
     "o_lperm": lambda: [Perm.RD, Perm.RD | Perm.WR],
@@ -987,6 +1058,10 @@ DUMP_BATTERY: Dict[str, List[str]] = {
     "PM": ["o_pm"],
     "DeepDefaults": ["o_deep", "o_deep_full"], "ListDeepDefaults": ["o_ldeep"],
     "WithExtra5": ["o_withextra5", "o_withextra5_nc"],
+    "LitM1": ["o_im1", "o_im2"], "LitM2": ["o_im2", "o_im1"], "LitM1x": ["o_im1"], "LitM2x": ["o_im2"], "OptLitM1": ["o_im1", "o_none"],
+    "OptLitM2": ["o_im2", "o_none"], "ListLitM1": ["o_lm1"], "ListLitM2": ["o_lm2"], "DefM1": ["o_defm1", "o_defm1x"], "DefM2": ["o_defm2", "o_defm2x"],
+    "DateTime": ["o_dt"], "Date": ["o_date"], "Time": ["o_time"], "TimeDelta": ["o_td"], "UUID": ["o_uuid"], "ListDateTime": ["o_ldt"],
+    "OptDate": ["o_date", "o_none"], "DictStrDateTime": ["o_ddt"],
     "LitBig": ["o_grey", "o_a"], "OptLitBig": ["o_grey", "o_none"], "Pixel": ["o_pixel"], "ListPixel": ["o_lpixel"],
     "ListShade": ["o_lshade"], "DictStrLitBig": ["o_d_lit"], "ListPerm": ["o_lperm"],
 }
@@ -1115,6 +1190,8 @@ RECIPES: Dict[str, Any] = {
     "dumper_scoped": lambda: [dumper(P[Node].value, str)],
     "asis_m2": lambda: [as_is_loader(M2)],
     "flag_names": lambda: [flag_by_member_names(Perm)],
+    "dt_format": lambda: [datetime_by_format(fmt="%Y-%m-%d %H:%M:%S")],
+    "dt_timestamp": lambda: [datetime_by_timestamp()],
     # location-bound name mappings: the same model is laid out differently depending on where it is reached from
     "nm_scoped_upper": lambda: [name_mapping(P[Outer1].inner, name_style=NameStyle.UPPER)],
     "nm_scoped_node": lambda: [name_mapping(P[Holder].first, name_style=NameStyle.UPPER)],
@@ -1135,13 +1212,14 @@ RECIPE_TYPES: Dict[str, List[str]] = {
     "scoped_int": ["M1", "M2", "ListM1", "int"], "scoped_node_value": ["Node", "Holder", "Outer1", "ListNode"],
     "scoped_linked_head": ["LinkedInt", "LinkedStr", "LinkedBool"], "enum_by_name": ["Color", "Status", "Shade", "LitColorR", "LitShade"],
     "enum_by_name_all": ["Color", "Status", "Shade", "Perm"],
+    "dt_format": ["DateTime", "ListDateTime", "DictStrDateTime"], "dt_timestamp": ["DateTime", "ListDateTime"],
     "flag_names": ["Perm"], "validator_inner": ["Inner", "Outer1", "Outer2"], "dumper_scoped": ["Node", "Holder", "ListNode"],
     "nm_as_list": ["M1", "ListM1", "M2"], "nm_extra_collect": ["WithExtra", "KwModel", "WithExtra2", "WithExtra3", "WithExtra4", "WithExtra4", "WithExtra5", "WithExtra5"], "nm_extra_forbid": ["Inner", "Outer1"],
     "asis_m2": ["M2", "ListM2", "M1"], "unsupported_fix": ["Unsupported", "ListUnsupported", "CallableT"],
     "nm_snake_only": ["SnakeCase"], "nm_camel": ["SnakeCase", "M1"], "nm_camel_shared": ["SnakeCase", "RA", "RB"],
     "chain_int_last": ["int", "M1", "ListInt", "GInt"], "chain_int_shared": ["int", "M1", "ListInt"],
     "chain_int_first": ["int", "M1"], "dumper_int_str": ["int", "M1", "ListInt", "Node"],
-    "nm_omit_default": ["WithDefaults", "Tree", "M1", "LinkedInt", "DefF", "DefB"], "nm_extra_forbid_all": ["M1", "Inner", "Node"],
+    "nm_omit_default": ["WithDefaults", "Tree", "M1", "LinkedInt", "DefF", "DefB", "DefM1", "DefM2"], "nm_extra_forbid_all": ["M1", "Inner", "Node"],
 }
 
 for _n in list(CONV_RECIPES):
